@@ -315,10 +315,16 @@ class AsynchronousDeferredRunTest(_DeferredRunTest):
         last_exception = None
         while self.case._cleanups:
             f, args, kwargs = self.case._cleanups.pop()
-            d = defer.maybeDeferred(f, *args, **kwargs)
+            # (Not maybeDeferred(f, *args, **kwargs): a cleanup may take a
+            # keyword argument called 'f'.)
+            d = defer.maybeDeferred(lambda: f(*args, **kwargs))
             try:
                 yield d
-            except Exception:
+            except GeneratorExit:
+                raise
+            except BaseException:
+                # KeyboardInterrupt and friends are recorded like any other
+                # failure of a cleanup; the remaining cleanups still run.
                 exc_info = sys.exc_info()
                 self.case._report_traceback(exc_info)
                 last_exception = exc_info[1]
